@@ -808,3 +808,42 @@ def inline_single_use_temps(fn, keep=frozenset()) -> int:
                             continue
                 i += 1
     return n_done
+
+
+# ---------------------------------------------------------------------------------------------------------------------
+# New module-level constants: `_POLL = 0.1` (a literal, bound once, a name the confirmed tree's module does not have) is
+# read as the literal wherever the module uses it.
+
+
+def propagate_new_constants(tree: ast.Module, keep=frozenset()) -> int:
+    stores = Counter()
+    for x in ast.walk(tree):
+        if isinstance(x, ast.Name) and isinstance(x.ctx, (ast.Store, ast.Del)):
+            stores[x.id] += 1
+        elif isinstance(x, ast.arg):
+            stores[x.arg] += 1
+        elif isinstance(x, (ast.Global, ast.Nonlocal)):
+            for nm in x.names:
+                stores[nm] += 2
+        elif isinstance(x, (ast.FunctionDef, ast.AsyncFunctionDef, ast.ClassDef)):
+            stores[x.name] += 1
+        elif isinstance(x, (ast.Import, ast.ImportFrom)):
+            for a in x.names:
+                stores[a.asname or a.name.split('.')[0]] += 1
+    consts = {}
+    for st in tree.body:
+        if isinstance(st, ast.Assign) and len(st.targets) == 1 and isinstance(st.targets[0], ast.Name) and isinstance(st.value, ast.Constant) and not isinstance(st.value.value, (bytes,)):
+            nm = st.targets[0].id
+            if nm not in keep and stores[nm] == 1:
+                consts[nm] = st.value
+    if not consts:
+        return 0
+
+    class T(ast.NodeTransformer):
+        def visit_Name(self, n):
+            if isinstance(n.ctx, ast.Load) and n.id in consts:
+                return ast.copy_location(ast.Constant(consts[n.id].value), n)
+            return n
+
+    T().visit(tree)
+    return len(consts)
